@@ -836,6 +836,18 @@ static void tecmpEnumerate(const TTask& t, bool thorough, Fn fn)
                             for (int lb : {t.a + 1, t.a + 2, t.a + 4, 64, 65, 255})
                                 if (lb <= 255 && lb > t.a + crc)
                                     fn(ref::tecmpFrame(h, ref::tecmpCanPayload(arb, (uint8_t) lb, data, crc)));
+                            // every single bit of the data-flags and device-flags words alone (the library reads none of them today; a
+                            // feature that starts to must not relax a length check): consistent frame and the lying length bytes
+                            if (arb == 0x321 && crc != 2)
+                                for (int bit = 0; bit < 32; ++bit)
+                                {
+                                    ref::TecmpHdr hf = h;
+                                    (bit < 16 ? hf.dataFlags : hf.deviceFlags) = (uint16_t) (1u << (bit & 15));
+                                    fn(ref::tecmpFrame(hf, ref::tecmpCanPayload(arb, (uint8_t) t.a, data, crc)));
+                                    for (int lb : {t.a + 1, t.a + 4, 9, 15, 65, 255})
+                                        if (lb <= 255 && lb > t.a + crc)
+                                            fn(ref::tecmpFrame(hf, ref::tecmpCanPayload(arb, (uint8_t) lb, data, crc)));
+                                }
                             // declared payload length larger than the buffer
                             ref::TecmpHdr h2 = h;
                             Bytes pl = ref::tecmpCanPayload(arb, (uint8_t) t.a, data, crc);
@@ -867,6 +879,15 @@ static void tecmpEnumerate(const TTask& t, bool thorough, Fn fn)
                             fn(ref::tecmpFrame(h, ref::tecmpLinPayload((uint8_t) pid, (uint8_t) lb, data, cs != 0, 0x11)));
                     Bytes one = {(uint8_t) pid};
                     fn(ref::tecmpFrame(h, one));
+                    if (pid == 0)
+                        for (int bit = 0; bit < 32; ++bit)
+                        {
+                            ref::TecmpHdr hf = h;
+                            (bit < 16 ? hf.dataFlags : hf.deviceFlags) = (uint16_t) (1u << (bit & 15));
+                            fn(ref::tecmpFrame(hf, ref::tecmpLinPayload((uint8_t) pid, (uint8_t) t.a, data, cs != 0, 0x11)));
+                            for (int lb : {t.a + 1 + cs, 200, 255})
+                                fn(ref::tecmpFrame(hf, ref::tecmpLinPayload((uint8_t) pid, (uint8_t) lb, data, cs != 0, 0x11)));
+                        }
                 }
             }
     }
